@@ -220,6 +220,57 @@ def random_spec(rng, depth=0):
     return items
 
 
+def many_partitions(ctx, rep: Report, rng):
+    """D23: a real AKAI image with more than 26 partitions - the root listing's names are distinct and each of them
+    (bare, padded, lower case, with a trailing separator) resolves to its own partition; model tie on every listing."""
+    import fam_akai as FA
+    import fam_e2e as E
+    import gen_akai as GA
+    from common import run_driver
+
+    for n in ((27, 33) if ctx.quick else (27, 34, 53)):
+        parts = [GA.Partition([GA.Volume("V%d" % k, [GA.SampleFile("S%d" % k, GA.random_words(rng, 20))])], sectors=6) for k in range(n)]
+        img, _ = GA.serialize(GA.Disc(parts), rng, shapes=("contiguous",))
+        with E.Scratch() as sc:
+            p = sc.write("x.img", img)
+            out, err = E.ls_real(p, "")
+            rows = [l for l in (out or "").split("\n")[2:] if l.strip()]
+            names = [l[:l.rfind("Partition")].rstrip() if "Partition" in l else l for l in rows]
+            detail = {"partitions": n, "names": names[-12:], "error": err}
+            rep.feat("images_with_more_than_26_partitions")
+            rep.evaluations += 1
+            if err or len(names) != n:
+                rep.findings.append(Finding("ls-partitions-missing", detail))
+                continue
+            if len(set(names)) != n or len({x.strip().upper().rstrip(":") for x in names}) != n:
+                rep.findings.append(Finding("ls-duplicate-sibling-names", dict(detail, akai=True)))
+                continue
+            probes = []
+            for k in sorted({0, 25, 26, 27 % n, n - 1}) if ctx.quick else range(n):
+                nm = names[k]
+                if not nm.strip():
+                    continue
+                for spell in (nm, " " + nm.lower() + " ", nm.rstrip(":") + "/"):
+                    probes.append((k, spell))
+            bad = None
+            for k, spell in probes:
+                o, e = E.ls_real(p, spell)
+                if e or ("V%d " % k) not in (o or ""):
+                    bad = (k, spell, (o or "")[:160], e)
+                    break
+            if bad:
+                rep.findings.append(Finding("ls-roundtrip-fails", dict(detail, akai=True, partition=bad[0], path=bad[1], got=bad[2], error=bad[3])))
+                continue
+            rep.feat("roundtrips", len(probes))
+            if ctx.model_available and (n < 30 or not ctx.quick):  # the model decodes every partition's table over lists: thorough tier, and the 27-partition image
+                paths = [""] + [names[k] for k in (0, 25, 26, n - 1)]
+                outm = run_driver([f"akai all {p} " + " ".join(FA.hxs(x) for x in paths)], timeout=600)[0].split(" || ")
+                for j, x in enumerate(paths):
+                    real = FA.ls_str(p, x)
+                    if len(outm) <= j + 1 or outm[j + 1] != real:
+                        rep.disagreements.append({"family": "akai-many-partitions", "op": f"ls {x!r} of {n} partitions", "model": (outm[j + 1] if len(outm) > j + 1 else "")[:400], "impl": real[:400], "meta": None})
+
+
 def run(ctx, rep: Report, deep: bool = False):
     rng = ctx.rng
     rep.rule = (
@@ -266,9 +317,10 @@ def run(ctx, rep: Report, deep: bool = False):
         for p in paths:
             cases.append(Case(f"names lookup {int(akai)} {FN.hxs(p)} " + " ".join(toks), lookup_real(root, p)))
         rep.feat("trees")
+    many_partitions(ctx, rep, rng)
     if ctx.model_available:
         compare_family(rep, "names-path", cases, nontrivial=lambda c: True)
-    rep.required_features = ["trees", "roundtrips", "arbitrary_paths", "token_strings_exhaustive", "duplicate_groups_differing_in_the_pair_delimiter"]
+    rep.required_features = ["trees", "roundtrips", "arbitrary_paths", "token_strings_exhaustive", "duplicate_groups_differing_in_the_pair_delimiter", "images_with_more_than_26_partitions"]
 
 
 def search(ctx, rep: Report):
